@@ -109,6 +109,53 @@ def check(prog, rep):
                 return True
         return False
 
+    # a mutable container as a parameter DEFAULT is created once, when the def is executed: a function that writes into
+    # it and has a caller leaving the argument out keeps that container across calls, i.e. across models
+    from ..inline import call_sites as _cs, bind_args as _ba
+    n_defaults = 0
+    for fi in prog.functions.values():
+        if not isinstance(fi.node, (ast.FunctionDef, ast.AsyncFunctionDef)) or fi.parent is not None:
+            continue        # a nested def is re-executed (fresh default) on each call of its factory
+        a_ = fi.node.args
+        dflt = dict(zip([x.arg for x in (a_.posonlyargs + a_.args)][::-1], a_.defaults[::-1]))
+        dflt.update({k.arg: d for k, d in zip(a_.kwonlyargs, a_.kw_defaults) if d is not None})
+        for pname, d in dflt.items():
+            mutable = isinstance(d, (ast.Dict, ast.List, ast.Set)) or (isinstance(d, ast.Call) and (dotted(d.func) or "").split(".")[-1] in ("dict", "list", "set", "defaultdict", "OrderedDict", "deque", "WeakValueDictionary"))
+            if not mutable:
+                continue
+            n_defaults += 1
+            if pname in local_assignments(fi.node):
+                continue    # rebound before use (the `x = x or {}` family): not followed
+            stores = []
+            for n in walk_local(fi.node, include_self=False):
+                if isinstance(n, (ast.Assign, ast.AugAssign)):
+                    for t in (n.targets if isinstance(n, ast.Assign) else [n.target]):
+                        if isinstance(t, ast.Subscript) and isinstance(t.value, ast.Name) and t.value.id == pname:
+                            stores.append(n)
+                if isinstance(n, ast.Call) and isinstance(n.func, ast.Attribute) and isinstance(n.func.value, ast.Name) and n.func.value.id == pname and n.func.attr in ("append", "update", "add", "setdefault", "extend", "insert", "appendleft"):
+                    stores.append(n)
+            reads = [n for n in walk_local(fi.node, include_self=False) if isinstance(n, ast.Name) and n.id == pname and isinstance(n.ctx, ast.Load)]
+            if not stores or len(reads) <= len(stores):
+                continue
+            sites = [(c_fi, c_) for c_fi, c_ in _cs(prog, fi, "optyx")]
+            omitting = []
+            for c_fi, c_ in sites:
+                if any(isinstance(x_, ast.Starred) for x_ in c_.args) or any(k_.arg is None for k_ in c_.keywords):
+                    continue
+                try:
+                    if _ba(fi.node, c_).get(pname) is d:
+                        omitting.append((c_fi, c_))
+                except Exception:
+                    pass
+            if sites and not omitting:
+                continue
+            who = f"{omitting[0][0].name} ({omitting[0][0].module.rel}:{omitting[0][1].lineno}) calls it without `{pname}`" if omitting else "it is part of the public surface and can be called without it"
+            rep.ob("R14.1", f"{fi.module.name}.{fi.name}({pname})", False,
+                   f"parameter `{pname}` defaults to a mutable container ({src(d)[:30]}) that {fi.name} writes into (line {stores[0].lineno}) and reads back; {who}: the one container created at import is then shared by "
+                   f"every call, so what one model left in it is handed to the next (entries keyed by id() or name outlive their model)",
+                   loc=f"{fi.module.rel}:{stores[0].lineno}", detail="mutable-default", robust=True)
+    rep.saw("mutable parameter defaults", n_defaults)
+
     for key, node in sorted(containers.items()):
         ws = writers.get(key, [])
         when = [_written_when(prog, w) for w in ws]
